@@ -197,6 +197,14 @@ def run_C08(ctx):
                 c['warm'] = True
                 c['stream'] += ' and first use'
         cases.append(c)
+    # a duty cycle of exactly zero (0, 0.0, -0.0): dead zone with current data, plain T_max(1 - w/w0) without
+    for _ in range(ctx.budget(6, 60)):
+        for z in (0, 0.0, -0.0):
+            c, w0 = gen_motor(rng, with_cur=rng.random() < 0.5)
+            c['w'] = gen.in_unit(rng, 'AngularSpeed', rng.uniform(-2, 2) * w0, True)
+            c['D'] = z
+            c['stream'] = 'duty cycle exactly zero'
+            cases.append(c)
     # standstill / no-load at full duty
     for _ in range(ctx.budget(20, 300)):
         c, w0 = gen_motor(rng, with_cur=True)
